@@ -73,9 +73,20 @@ def finish(prop, tier, obligations, t0, level="model_checking", technique="", as
     for o in obligations:
         if o.result == FAIL:
             key = (prop, o.witness_for or o.name)
+            goals = getattr(o, "violated_goals", None)
             if key in findings:
                 o.result = KNOWN_FINDING
                 known_hits.append((o, findings[key]))
+            elif goals and all((prop, f"{o.name}/{g}") in findings for g in goals):
+                # findings listed per call site (goal) of this obligation: every violated goal is listed; the other goals of
+                # the obligation must still be decided
+                known_hits.append((o, findings[(prop, f"{o.name}/{goals[0]}")]))
+                other = getattr(o, "other_bad", {})
+                if other:
+                    o.result, o.detail = UNDECIDED, "; ".join(f"{k}: {v}" for k, v in other.items())[:900]
+                    undecided.append(o)
+                else:
+                    o.result = KNOWN_FINDING
             else:
                 violations.append(o)
         elif o.result in (UNDECIDED, NOT_REPRODUCED):
